@@ -165,7 +165,17 @@ class VC:
         rel = set(term_syms(neg))
         for h in self.pc_terms:
             rel |= term_syms(h)
-        axs = L.sum_axioms(rel) if CTX.sums else []
+        axs = []
+        if CTX.sums:
+            # sums occurring only inside the bodies of relevant sums become relevant in the next round
+            for _round in range(4):
+                axs = L.sum_axioms(rel)
+                rel2 = set(rel)
+                for ax in axs:
+                    rel2 |= term_syms(ax.t)
+                if rel2 == rel:
+                    break
+                rel = rel2
         hyps = list(self.pc_terms) + list(CTX.side) + [ax.t for ax in axs]
         r, backend, model, reason = self._solve(hyps, neg)
         status = 'proved' if r == z3.unsat else ('failed' if r == z3.sat else 'unknown')
